@@ -30,6 +30,30 @@ theorem acked_indexed_aux (hA : A.Lawful) (cfg : Cfg) (hp : cfg.prune = none) (o
     rw [List.flatMap_append]
     exact List.mem_append_left _ h
 
+/-- Crash, reopen, continue with any workload, crash again: every prefix of the
+second life's commit list (recovery's own commits first) is again an image that
+satisfies the invariant and reopens consistently. -/
+theorem relife_recovers_aux (hA : A.Lawful) (cfg cfg' : Cfg) (hp : cfg.prune = none) {img : Image A}
+    (hi : Inv img) {rn : Node A} (r : recover cfg img = .ok rn) (ops : List Op) (k : Nat) :
+    Inv (replay img ((runOps cfg rn ops).log.take k)) ∧
+    ∃ rn', recover cfg' (replay img ((runOps cfg rn ops).log.take k)) = .ok rn' ∧
+      rn'.utxo = utxoOf A rn'.tip ∧
+      (rn'.tip = img.best ∨ rn'.tip ∈ ((runOps cfg rn ops).log.take k).filterMap bestOf) ∧
+      (∀ x, x ∈ keys img.rows → x ∈ keys rn'.index) := by
+  obtain ⟨rn0, r0, g0, _, _⟩ := recover_spec cfg hi
+  rw [r0] at r
+  have hrn : rn0 = rn := by injection r
+  subst hrn
+  obtain ⟨gfin, _⟩ := runOps_spec hA cfg hp ops rn0 g0
+  have hinv : Inv (replay img ((runOps cfg rn0 ops).log.take k)) :=
+    inv_of_inv' (gfin.core.sound k) (created_replay _ _ hi.created)
+  obtain ⟨rn', r', g', t', hrows⟩ := recover_spec cfg' hinv
+  refine ⟨hinv, rn', r', g'.utxo_eq, ?_, ?_⟩
+  · rw [t']
+    exact best_replay _ img
+  · intro x hx
+    exact hrows x ((rows_replay _ img x).mpr (Or.inl hx))
+
 /-! ### where a successful delivery leaves the tip -/
 
 theorem connectBlock_tip (cfg : Cfg) (nd : Node A) (n : Chain) (h : (connectBlock cfg nd n).2 = true) :
